@@ -55,6 +55,17 @@ def all_harnesses():
                     hs.append(Harness(f"c10_{nm}_c{cap}_s{si}_a{la}b{lb}", f"crate::c10::two_in({kind}, {la}, {lb}, {cap}, {rs3(s)}, 6)",
                                       unwind=12, unit=("Add" if kind == 0 else "Xor") + "::work", timeout=900,
                                       shape={"block": nm, "la": la, "lb": lb, "cap": cap, "schedule": s}, core=(cap == 2 and si == 0 and la == 3 and lb == 2)))
+            pass
+    for size in (2, 3):
+        for cap in (size, size + 1, 2 * size + 1):
+            for si, s in enumerate(([(1, cap)] * 3, [(cap, 0), (cap, 0), (cap, 1)], [(cap, 0), (1, 1), (cap, 1)], [(cap, cap), (cap, 0), (1, size)])):
+                L = 2 * size + 1
+                hs.append(Harness(f"c10_fftstream_n{size}_c{cap}_{sname(s)}", f"crate::c10::fft_stream({size}, {L}, {cap}, {rs_sched(s)}, {L + 5})",
+                                  unwind=14, unit="FftStream::work framing", timeout=1500,
+                                  shape={"block": "fftstream", "size": size, "L": L, "cap": cap, "schedule": s},
+                                  core=(size == 2 and cap == 5 and si in (1, 2)) or (size == 3 and cap == 4 and si == 2)))
+    for cap in (2, 3):
+        for si, s in enumerate(S3[cap]):
             hs.append(Harness(f"c10_f2c_c{cap}_s{si}", f"crate::c10::float_to_complex(2, {cap}, {rs3(s)}, 5)", unwind=12,
                               unit="FloatToComplex::work", timeout=900, shape={"block": "f2c", "cap": cap, "schedule": s}, core=(cap == 2 and si == 0)))
             hs.append(Harness(f"c10_tee_c{cap}_s{si}", f"crate::c10::tee(3, {cap}, {rs3(s)}, 6)", unwind=12,
